@@ -859,6 +859,11 @@ func runCase(seed int64, ci int, sc scen, addr string, rec *recorder) caseResult
 	case "f:quota":
 		maxp = 2
 	}
+	if !sc.rnd && sc.path != "f:quota" && sc.path != "f:noavail" && ci%2 == 0 {
+		// every other matrix scenario runs with a per-client quota that is never reached: the quota counter
+		// is part of the observation, so a termination path or failure point that does not give it back shows
+		maxp = 8
+	}
 	if sc.rnd && sc.path != "f:quota" && sc.path != "f:noavail" && g.Chance(0.3) {
 		// a generous quota and a split range change nothing for the scenario but are other inputs
 		maxp = 6
